@@ -6,6 +6,7 @@ import (
 	"bytes"
 	"encoding/hex"
 	"fmt"
+	"os"
 	"sort"
 	"strconv"
 	"strings"
@@ -439,6 +440,10 @@ func codeSweep(r *Rng, tier string) {
 }
 
 func runC05(r *Rng, tier string, n int) {
+	if os.Getenv("C05_CHILD") == "concurrent" {
+		concurrentChild()
+		os.Exit(0)
+	}
 	types := presentableTypes()
 	stats["presentable_types"] = len(types)
 	perClass, mixed, unk, indep := 4, 30, 120, 60
@@ -504,6 +509,8 @@ func runC05(r *Rng, tier string, n int) {
 	// (4) records without RDATA
 	noRdata(types)
 	largeRdata(r)
+	timeZones()
+	concurrentPrinting()
 	// (5) all type and class code points
 	codeSweep(r, tier)
 	// (6) independent reader of character-strings
